@@ -920,6 +920,7 @@ class UnionSerializer(TypeSerializer[T, np.object_]):
     def write(self, stream: CodedOutputStream, value: T) -> None:
         if value is None:
             if self._cases[0] is None:
+                stream.ensure_capacity(1)
                 stream.write_byte_no_check(0)
                 return
             else:
@@ -967,6 +968,7 @@ class StreamSerializer(TypeSerializer[Iterable[T], Any]):
                 self._element_serializer.write(stream, element)
         else:
             for element in value:
+                stream.ensure_capacity(1)
                 stream.write_byte_no_check(1)
                 self._element_serializer.write(stream, element)
 
